@@ -72,6 +72,9 @@ func VfC07_ParseGEP() {
 		"\t%z = getelementptr " + T + ", " + baseT + " %p\n" + // no indices (valid LLVM): the type of the base
 		"\tret void\n}\n" +
 		"@c = global i8 0\n" +
+		"@ag = global " + T + " zeroinitializer\n" +
+		"@al = alias float, getelementptr inbounds (" + T + ", " + T + "* @ag, i32 0, i32 1, i32 2, i32 1)\n" + // the type of an alias is inferred from its aliasee
+
 		"@e = global " + resultText(vs, nd, ad, baseVec || vecIdx) + " getelementptr (" + T + ", " + baseT + " undef, " + idx + ", i32 1, i32 2, i32 1)\n"
 	m, err := ParseString("t.ll", src)
 	vfReach("C07.parse")
@@ -97,7 +100,8 @@ func VfC07_ParseGEP() {
 	vfAssert("C07.parse.zero-index.attached", hC06Same(zero.Typ, wantZero))
 	zero.Typ = nil
 	vfAssert("C07.parse.zero-index.recomputed", hC06Same(zero.Type(), wantZero))
-	expr := m.Globals[2].Init.(*constant.ExprGetElementPtr)
+	vfAssert("C07.parse.alias-of-gep.type", vfAnd(len(m.Aliases) == 1, hC06Same(m.Aliases[0].Type(), &types.PointerType{ElemType: types.Float})))
+	expr := m.Globals[3].Init.(*constant.ExprGetElementPtr)
 	vfAssert("C07.parse.expr.attached", hC06Same(expr.Typ, want))
 	expr.Typ = nil
 	vfAssert("C07.parse.expr.recomputed", hC06Same(expr.Type(), want))
